@@ -18,6 +18,18 @@ def engineOfJson (c : Json) : EngineCfg :=
 def termsSkel (ts : Terms) : Json :=
   Json.arr (ts.map (fun kv => Json.arr #[.str kv.1, .bool (isPass kv.2)])).toArray
 
+/-- join terms also say WHICH side leads a coalesce / qualifies a pass-through column -/
+def joinTermShape : STerm → String
+  | .pass => "pass"
+  | .coalesce true _ => "coalesce:l:r"
+  | .coalesce false _ => "coalesce:r:l"
+  | .qual true _ => "qual:l"
+  | .qual false _ => "qual:r"
+  | _ => "other"
+
+def joinTermsSkel (ts : Terms) : Json :=
+  Json.arr (ts.map (fun kv => Json.arr #[.str kv.1, .bool (isPass kv.2), .str (joinTermShape kv.2)])).toArray
+
 def optStrs : Option (List String) → Json
   | none => .null
   | some cs => strListOut cs
@@ -34,7 +46,7 @@ partial def nearSkel : Near → Json
                                        | .orderBy cs _ lim => if cs.isEmpty then (if lim.isSome then "LIMIT" else "") else "ORDER BY")),
       ("mergeable", .bool mg)]
   | .join n ts l lc ln r rc rn jt oa ob _ =>
-    Json.mkObj [("cls", "join"), ("name", .str n), ("terms", termsSkel ts), ("l", nearSkel l), ("l_cols", strListOut lc),
+    Json.mkObj [("cls", "join"), ("name", .str n), ("terms", joinTermsSkel ts), ("l", nearSkel l), ("l_cols", strListOut lc),
       ("l_name", .str ln), ("r", nearSkel r), ("r_cols", strListOut rc), ("r_name", .str rn),
       ("joiner", .str (jt.toStr ++ " JOIN")), ("on_a", strListOut oa), ("on_b", strListOut ob)]
   | .union n ts l r cs _ =>
